@@ -5,7 +5,7 @@ from itertools import product
 ID = "C13"
 RULE = ("seeded undirected multigraphs (ties, negative/dyadic weights, duplicate pairs with different weights, "
         "self loops, isolated nodes, 2-4 components, arbitrary hashable labels and any start for prim) plus every "
-        "simple graph on <=4 nodes with weights {absent,1,2}; each result of kruskal (default and backend='python', "
+        "simple graph on <=4 nodes with weights {absent,1,2} (thorough: {absent,1,2,3}); each result of kruskal (default and backend='python', "
         "allow_forest off/on) and prim (two label schemes, given/implicit start) is judged by an exact certificate: "
         "edges are input edges, acyclic, spanning, objective = sum, cycle property (=> minimum, any size), total = "
         "the oracle's own Kruskal, kruskal = prim; UnionFind contracts (C20) stay attached inside kruskal. "
@@ -18,11 +18,11 @@ ASSUMPTIONS = [
     "on a connected graph any OPTIMAL/FEASIBLE status is accepted (the statement fixes the status only for the disconnected cases)",
 ]
 STRATA = [
-    ("ties", 900, 14000),
-    ("spread", 700, 11000),
-    ("multigraph", 900, 14000),
-    ("disconnected", 900, 14000),
-    ("larger", 120, 1800),
+    ("ties", 1800, 40000),
+    ("spread", 1400, 30000),
+    ("multigraph", 1800, 40000),
+    ("disconnected", 1800, 40000),
+    ("larger", 240, 5000),
     ("exhaustive-small", 1, 1),
 ]
 BATCH = {"exhaustive-small": 1}
@@ -97,7 +97,7 @@ def _spanning_skeleton(rng, nodes, w):
 
 def gen(stratum, rng, tier):
     if stratum == "exhaustive-small":
-        return {"kind": "exh", "max_n": 4}
+        return {"kind": "exh", "max_n": 4, "weights": (0, 1, 2) if tier == "quick" else (0, 1, 2, 3)}
     if stratum == "ties":
         n = rng.randint(1, 9)
         w = _weight_fn(rng, "ties")
@@ -335,7 +335,7 @@ def run(case, obs):
     cnt = 0
     for n in range(1, case["max_n"] + 1):
         pairs = [(a, b) for a in range(n) for b in range(a + 1, n)]
-        for ws in product((0, 1, 2), repeat=len(pairs)):
+        for ws in product(tuple(case.get("weights", (0, 1, 2))), repeat=len(pairs)):
             edges = [(a, b, w) for (a, b), w in zip(pairs, ws) if w]
             sub = {"kind": "g", "n": n, "edges": edges, "labels": list(range(n)), "start": cnt % n, "adj_seed": cnt}
             _run_graph(sub, obs)
